@@ -556,3 +556,30 @@ PROPS["C09"] = dict(
           "re-execution equals emulation, freed memory is reused (no new region for a whole-region request after free-all)."),
     assumptions=["ORC_CODE=debug (which disables freeing) is not set"],
 )
+
+PROPS["C16"] = dict(
+    variant="asan",
+    sources=ENGINE + ["props/c16_lifecycle.c"],
+    env={"ASAN_OPTIONS": "abort_on_error=1:detect_leaks=1:leak_check_at_exit=0:allocator_may_return_null=1:handle_segv=0:handle_sigbus=0:handle_abort=0",
+         "LSAN_OPTIONS": "report_objects=1:print_suppressions=0"},
+    level="exploration",
+    technique="stateful property-based testing (rapidcheck-generated lifecycle histories driven by an ownership model) under AddressSanitizer + LeakSanitizer, with code-memory accounting through the walker hook and enumerated long-loop steady-state cases",
+    level_text=("generated legal histories of up to 80 lifecycle operations over four program slots run under ASan (use-after-free, double free) "
+                "with a LeakSanitizer check and a code-chunk accounting check after the history has freed everything; four enumerated "
+                "3000-iteration loops compare heap bytes in use and code-region count between iteration 1000 and 3000. Sampled, not exhaustive"),
+    level_note=("trusted base: ASan/LSan runtime, the ownership model in props/c16_lifecycle.c (which operations are legal), the walker hook; "
+                "run-attached is only issued while the program still owns the code it points to (after take_code or reset the program's "
+                "code_exec is stale by design and a recompile is required)"),
+    stages=[
+        dict(name="enum-long-loops", mode="enum", quick=dict(), thorough=dict()),
+        dict(name="rc-lifecycle-histories", mode="rc", quick=dict(cases=16000, max_size=1500, budget=50), thorough=dict(cases=400000, max_size=2500, budget=900)),
+    ],
+    rule=("a case is a history over 4 slots of: new program (valid, with an undeclared operand, or with an unknown opcode), compile / recompile "
+          "for avx, sse, mmx, c or no target, take_code, reset, run attached, emulate, run taken code, free program, free taken code, "
+          "parse generated .orc text (optionally with broken lines) and free the programs and error records. Non-trivial: the history "
+          "contains a failed compile followed by further use, a recompile after take_code, or a run of taken code after its program was "
+          "freed. Oracle: ASan silent, LSan reports no unreachable block after the final frees, used code chunks == live code objects "
+          "after every operation and 0 at the end, taken code computes what emulation computes, heap in use and region count do not grow "
+          "between iteration 1000 and 3000 of the long loops."),
+    assumptions=["ORC_CODE=debug (which disables freeing) is not set"],
+)
